@@ -143,7 +143,7 @@ def _gen_case(rng, combo=None):
 
 
 def gen_cases(run):
-    n = run.n(6000, 160000)
+    n = run.n(6000, 320000)
     rng = run.rng
     combos = [(a, l, s, sp, d) for d in ["single", "compose", "loader"] for a in APPLY for l in LAMB for s in SHUFFLE for sp in SPLITS]
     combos += [("batch", "batch", "flip", "mixed", "mae")] * 6
